@@ -45,9 +45,20 @@ def creation_crashes(entry):
     ref = reference_dump(entry)
     d = fsx.fresh_scratch("c19")
     target = os.path.join(d, "relay.sqlite")
+    # bystanders in the same directory, with names related to the target's: they must never be touched
+    make_valid(os.path.join(d, "relay.sqlite.usage"), "usage", 4)
+    make_valid(os.path.join(d, "relay.sqlite-old"), "channel", 2)
+    with open(os.path.join(d, "relay.sqlite.notes.txt"), "wb") as f:
+        f.write(b"operator notes\n")
+    bystanders = {k: v for k, v in fsx.read_dir(d).items()}
     rec = fsx.Recorder(d)
     fn = ENTRY[entry][1]()
     result, exc = rec.run(lambda: fn(target))
+    after_all = fsx.read_dir(d)
+    hurt = sorted(k for k, v in bystanders.items() if after_all.get(k) != v)
+    if hurt or [x for x in rec.deleted if x in bystanders]:
+        viols.append(V("creation-touched-unrelated-files", {"case": {"entry": entry}, "files": hurt, "deleted": rec.deleted},
+                       {"entry": entry}))
     if exc is not None:
         viols.append(V("first-time-creation-failed", {"case": {"entry": entry}, "exc": repr(exc)}))
     elif result is not None:
@@ -140,6 +151,19 @@ def preexisting_cases(kind):
     cases.append(("version-newer", lambda p: make_valid(p, kind, 3, target + 1), "reject"))
     cases.append(("version-999", lambda p: make_valid(p, kind, 3, 999), "reject"))
     cases.append(("version-row-missing", lambda p: make_valid(p, kind, 3, "none"), "reject"))
+    if kind == "channel":
+        def dangling(version):
+            def b(p):
+                make_valid(p, kind, 2, version)
+                db = seams._real_connect(p)
+                db.execute("INSERT INTO mailbox_sides (mailbox_id, opened, side, added) VALUES ('no-such-mailbox', 1, 's', 1)")
+                db.execute("INSERT INTO nameplate_sides (nameplates_id, claimed, side, added) VALUES (4711, 1, 's', 1)")
+                db.commit()
+                db.close()
+            return b
+        # rows that violate a foreign key: the start-up integrity check refuses the file - and leaves it alone
+        cases.append(("current-version-with-dangling-rows", dangling(None), "reject"))
+        cases.append(("newer-version-with-dangling-rows", dangling(target + 1), "reject"))
     return cases
 
 
